@@ -1,7 +1,7 @@
 PROP = dict(
     drivers=['Font', 'Tdf', 'FontBox', 'FontDcs'],
-        gens=['unsafe_sites', 'xb', 'binfmt', 'icy', 'fontdcs'],
-        lake=['IcyVerif.Props.C17', 'IcyVerif.Props.C17Dcs', 'IcyVerif.Props.C17Psf', 'IcyVerif.Props.C17Tdf'],
+        gens=['unsafe_sites', 'xb', 'binfmt', 'icy', 'fontdcs', 'fontslot'],
+        lake=['IcyVerif.Props.C17', 'IcyVerif.Props.C17Dcs', 'IcyVerif.Props.C17Psf', 'IcyVerif.Props.C17Tdf', 'IcyVerif.Props.C17Page'],
         ns='IcyVerif.C17',
         theorems=['psf2_rt', 'raw_rt_exact', 'raw_rt_partial', 'raw_magic_counterexample', 'raw_psf2_witnesses', 'raw_512_reads_as_double_height', 'basic_rt',
                   'clip_rt', 'dcs_rt_exact', 'dcs_rt_partial', 'icy_font_chunk_rt',
@@ -13,7 +13,9 @@ PROP = dict(
                   'psf1_load_exact', 'psf1_charsize_zero', 'psf1_to_psf2_rt', 'psf2_load_exact', 'psf2_flags_ignored',
                   'psf2_headersize_rt', 'psf2_unicode_table_rejected', 'toPsf2_is_psf2File', 'psf1_unicode_table_read_as_glyphs',
                   'psf2_wide_font_quirk',
-                  'tdf_rt_iff', 'wfTdf_iff', 'tdf_plain_rt', 'tdf_color_rt', 'has_char_table', 'tdf_presence_rt', 'tdf_outside_witnesses'],
+                  'tdf_rt_iff', 'wfTdf_iff', 'tdf_plain_rt', 'tdf_color_rt', 'has_char_table', 'tdf_presence_rt', 'tdf_outside_witnesses',
+                  'embedded_font_is_the_font_of_the_page', 'adf_idf_font_rt_page_partial', 'adf_slot0_height_counterexample',
+                  'icy_every_slot_has_a_chunk'],
         harness='c17',
         harness_timeout=1500,
         design='DESIGN.md §4 C17',
@@ -40,6 +42,15 @@ PROP = dict(
                   '(converse by analysing what the reader returns on what the writer wrote, without well-formedness), has_char for every '
                   'character code incl. its off-by-one panic at 127. XBin: the embedding decision after fix 6fc5ca0 (is_default compares '
                   'glyph bytes) — xb_font_rt is full strength. '
+                  'WHICH FONT GOES WHERE (Props/C17Page.lean): embedded_font_is_the_font_of_the_page — for every picture the XBin/ADF/IDF writers '
+                  'accept, block i of the file holds the glyph bytes of the font in the slot of the i-th font PAGE IN USE (analyze_font_usage), '
+                  'not of slot i; adf_idf_font_rt_page_partial — ADF/IDF pictures whose cells are on ANY page k: the file is byte for byte '
+                  'the file of the page-0 picture toPage0 (nothing the writers read depends on the page number: as_u8, IDF run lengths, 8-bit '
+                  'test — proved by induction over rows and the run-length coder), so the font of slot k comes back as slot 0 whatever slot 0 '
+                  'holds, PROVIDED slot 0 holds an 8x16 font too (the writers test get_font_dimensions() = slot 0: findings '
+                  'adf/idf_font_height_of_slot0, kernel-checked witness adf_slot0_height_counterexample); icy_every_slot_has_a_chunk — the '
+                  'IcyDraw writer emits FONT_k for every slot, no condition on the font (built-in default in slot 5 included). '
+                  'tools/gens/fontslot.py pins the 16 source sites of the indirection. '
         'Differential correspondence (bytes hashed) ties writers and readers to the models on in-domain, boundary and damaged '
                   'inputs, including whole container files (length, hash, font block offsets, loaded fonts) and IcyDraw chunk sequences '
                   '(own PNG/zTXt/inflate/base64 reader).',
@@ -66,7 +77,17 @@ PROP = dict(
              '(thorough 1800) random unit streams (font sequences whole / cut / damaged, ESC P, ESC \\, text and hex macro definitions, '
              'invocations well- and malformed, RIS, sixel and other DCS, bare ESC), 108 boundary streams (every state x every critical '
              'character); streams are cut where they would leave the modelled states (counted). distinct_nontrivial = distinct fonts / '
-             'container cases / streams',
+             'container cases / streams; '
+             'WHICH FONT GOES WHERE (harness/src/fontslot.rs): XBin / ADF / IDF pictures with ALL cells on one page k in {1,3,42,300,+1 random; '
+             'thorough 12 values up to 65536} x slot 0 = {built-in default, another built-in page, custom 8x16, default glyphs with one bit '
+             'flipped under the default name} (never referenced) x slot k = {two custom patterns, the built-in default, a built-in page, a '
+             'font named like the default} x palette x SAUCE x compression; XBin heights (slot 0, slot k) in {(16,8),(8,16),(14,19),(32,1),(16,32)}; '
+             'XBin 512-character pictures on page pairs (0,3),(1,4),(2,5),(3,300),+1 x heights x opts with OTHER fonts in the unused slots 0/1; '
+             'ADF / IDF {8x16, not 8x16} over (slot 0, slot k): in the domain iff the font of page k is 8x16; no font in slot 0 at all '
+             '(writer outcome vs model only); IcyDraw documents with every injective placement of {built-in default, other built-in page, '
+             'custom} over slots {0,1,5,300} with slot 0 filled (18), every third (thorough: all 24) placement of four kinds incl. default '
+             'glyphs renamed / default name with other glyphs, the default font in all four slots — oracle: exactly the saved slots exist '
+             'after loading and each holds its font',
         modelled='BitFont::{to_psf2_bytes, from_bytes, load_psf1, load_psf2, load_plain_font, convert_to_u8_data, calculate_checksum, '
                  'create_8, from_basic, encode_as_ansi, get_clipboard_data}, Glyph::from_clipbard_data, glyphs_from_u8_data, '
                  'Parser::load_custom_font (payload level, with executable base64 STANDARD and usize formatting/parsing), IcyDraw '
@@ -76,8 +97,12 @@ PROP = dict(
                  'ansi::Parser::print_char in the states Default, ReadEscapeSequence, RecordDCS, RecordDCSEscape, ReadPossibleMacroInDCS; '
                  'invoke_macro_by_id (depth 8, budget 65536); execute_dcs, parse_macro, parse_macro_sequence, parse_hex_macro_sequence '
                  '(C01\'s definitions reused), load_custom_font on the recorded string; Buffer::set_font / get_font; BitFont::is_default '
-                 '(repaired) as the XBin embedding decision',
-        not_modelled='every parser state other than the five DCS-related ones (CSI and its sub-states, OSC, APS, ANSI music): one absorbing '
+                 '(repaired) as the XBin embedding decision; the page -> slot indirection of the XBin / ADF / IDF writers (analyze_font_usage, '
+                 'get_font(fonts.first()), get_font(fonts[1]), get_font_dimensions() = slot 0) and loaders (block -> slot 0 / 1) for pictures on '
+                 'any page; the FONT_k loop of the IcyDraw writer over every slot',
+        not_modelled='XBin LOADER half for pictures on pages other than [0] / [0,1] (C05\'s xb_roundtrip is stated for those; writer half '
+                     'embedded_font_is_the_font_of_the_page holds for all pages; the rest is correspondence + oracle); buffers without a font in slot 0 '
+                     '(get_font_dimensions / write_sauce_info panic: modelled as .panic, compared, not a domain of any theorem); every parser state other than the five DCS-related ones (CSI and its sub-states, OSC, APS, ANSI music): one absorbing '
                      'state `out`, entered only by ESC [ / ESC ] / ESC _ in ReadEscapeSequence — streams are cut there; caret, layers and '
                      'terminal state (irrelevant for fonts); the sixel decode thread a `q` DCS spawns; crates base64 / '
                      'png / flate2 themselves (the model has its own base64; PNG container and zTXt compression are parameters of C07\'s '
